@@ -137,6 +137,35 @@ CURATED = [
     ('param-shadows', 'x := @h1@\nfn f(x) {\n    x = x + 1\n    return x\n}\nprint(f(@h2@))\nprint(x)\n'),
     ('nested-closures', 'fn outer() {\n    a := @h1@\n    fn mid() {\n        b := @h2@\n        return fn () {\n            a += 1\n            b += 1\n            return a + b\n        }\n    }\n    return mid()\n}\nf := outer()\nprint(f())\nprint(f())\ng := outer()\nprint(g())\n'),
 ]
+CURATED += [
+    ('while-fresh-per-iteration', 'fs := []\ni := 0\nwhile i < 3 {\n    j := i * 10 + @h1@\n    cnt := 0\n    fs += [fn () {\n        cnt += 1\n        return j + cnt\n    }]\n    i += 1\n}\nprint(fs[0]())\nprint(fs[1]())\nprint(fs[2]())\nprint(fs[0]())\nprint(fs[2]())\n'),
+    ('late-decl-in-enclosing-fn', 'x := @h1@\nh := null\nfn f() {\n    if true {\n        h = fn () {\n            return x\n        }\n    }\n    x := @h2@\n    return h()\n}\nprint(f())\nprint(h())\nprint(x)\n'),
+    ('late-decl-in-enclosing-block', 'y := @h1@\ng := null\n{\n    {\n        g = fn () {\n            y = y + 1\n            return y\n        }\n    }\n    y := @h2@\n    print(g())\n    print(y)\n}\nprint(y)\nprint(g())\n'),
+    ('late-decl-for', 'z := @h1@\nks := []\nfn mk() {\n    for [i, v] in [1, 2] {\n        ks += [fn () {\n            return z + v\n        }]\n    }\n    z := @h2@\n    return ks[0]() + ks[1]()\n}\nprint(mk())\nprint(z)\n'),
+    ('for-closure-escape', 'acc := []\nfor [i, v] in [@h1@, @h2@] {\n    t := v\n    acc += [fn (d) {\n        t += d\n        return t\n    }]\n}\nprint(acc[0](1))\nprint(acc[1](10))\nprint(acc[0](1))\n'),
+    ('assign-nearest-3-levels', 'n := @h1@\n{\n    n := @h2@\n    {\n        {\n            n = @h3@\n            n += 1\n        }\n        print(n)\n    }\n    print(n)\n}\nprint(n)\nfn f(n) {\n    for [i, v] in [1, 2] {\n        n += v\n    }\n    return n\n}\nprint(f(@h4@))\nprint(n)\n'),
+    ('call-in-loop-fresh', 'fn mk(k) {\n    loc := k\n    return fn () {\n        loc += 1\n        return loc\n    }\n}\ncs := []\ni := 0\nwhile i < 2 {\n    cs += [mk(i * 100)]\n    i += 1\n}\nprint(cs[0]())\nprint(cs[1]())\nprint(cs[0]())\n'),
+]
+def destructure_assign_kinds():
+    pats = [('[a, b]', '[1, 2]'), ('[a, ..r]', '[1, 2, 3]'), ('{a}', '{"a": 1}'), ('{"k": a}', '{"k": 1}'), ('{a, ..r}', '{"a": 1, "b": 2}'), ('[a, [b]]', '[1, [2]]'), ('[a, {b}]', '[1, {"b": 2}]'), ('{"k": [a, ..r]}', '{"k": [1, 2]}')]
+    ts = []
+    for i, (p, src) in enumerate(pats):
+        names = [n for n in re.findall(r'\b([abr])\b', re.sub(r'"[^"]*"', '', p))]
+        names = sorted(set(names), key=names.index)
+        prints = ''.join('print(%s)\n' % n for n in names)
+        # (i) nothing declared: assignment must report the first name as undefined
+        ts.append({'name': 'dassign-undeclared-%d' % i, 'src': 'print(0)\n%s = %s\n%s' % (p, src, prints)})
+        # (ii) declared in an enclosing scope, assigned from an inner block: the outer variables change, nothing new is declared
+        decl = ''.join('%s := @h%d@\n' % (n, k + 1) for k, n in enumerate(names))
+        ts.append({'name': 'dassign-enclosing-%d' % i, 'src': decl + '{\n    %s = %s\n    ' % (p, src) + prints.replace('\n', '\n    ').rstrip(' ') + '}\n' + prints})
+        # (iii) one of the names missing
+        if len(names) > 1:
+            decl1 = ''.join('%s := 0\n' % n for n in names[:-1])
+            ts.append({'name': 'dassign-partial-%d' % i, 'src': decl1 + '%s = %s\n%s' % (p, src, prints)})
+        # (iv) declared in the same scope
+        ts.append({'name': 'dassign-same-%d' % i, 'src': decl + '%s = %s\n%s' % (p, src, prints)})
+    return ts
+
 def redeclare_kinds():
     later = ['x := 1', 'fn x() {\n    return 1\n}', '[x, q] := [1, 2]', '{x} := {"x": 1}', '[q, [x]] := [1, [2]]']
     first = ['x := 0', 'fn x() {\n    return 0\n}', '[w, x] := [0, 0]', '{"k": x} := {"k": 0}']
@@ -168,8 +197,9 @@ def templates(tier, seed=0):
         assume = (lambda v: [v['h1'] >= -1, v['h1'] <= 4]) if name == 'fn-recursion' else None
         ts.append({'name': name, 'src': src, 'assume': assume}); ts.append({'name': name + '~renamed', 'src': rename(src), 'assume': assume})
     ts += redeclare_kinds()
+    ts += destructure_assign_kinds()
     ts += nonbindable()
-    n = 40 if tier == 'quick' else 300
+    n = 80 if tier == 'quick' else 400
     for i in range(n):
         src = gen_program(seed * 100003 + i, 2 if i % 2 == 0 else 3, 6 + i % 7)
         ts.append({'name': 'gen-%d' % i, 'src': src})
